@@ -1087,7 +1087,17 @@ func worldC19(w *World) {
 				time.Sleep(200 * time.Millisecond)
 			}
 		}()
-		clientsWG.Wait()
+		// every client call returns within the proxy's own waiting period; one that has
+		// not returned after five simulated minutes never will (reported by the oracle)
+		clientsDone := make(chan struct{})
+		go func() {
+			clientsWG.Wait()
+			close(clientsDone)
+		}()
+		select {
+		case <-clientsDone:
+		case <-time.After(5 * time.Minute):
+		}
 		time.Sleep(40 * time.Second)
 		mu.Lock()
 		stop = true
